@@ -166,6 +166,11 @@ func (f *Track1) unpack(raw []byte) error {
 		return errors.New("invalid track data")
 	}
 
+	// forget what a previous Unpack or SetBytes left behind: components that are
+	// absent from this track must not keep their old values
+	f.FormatCode, f.PrimaryAccountNumber, f.Name = "", "", ""
+	f.ExpirationDate, f.ServiceCode, f.DiscretionaryData = nil, "", ""
+
 	matches := track1Regex.FindStringSubmatch(string(raw))
 	for index, val := range matches {
 		value := strings.TrimSpace(val)
